@@ -2,15 +2,17 @@
    the real session pair ran (with the slots the real allocator handed out and the observed slice sizes
    as inputs), compare the per-class in-use counts and the queue occupancy after every op. *)
 From Coq Require Import List ZArith Bool Arith.
-From Shm Require Import Gen.Consts Model.Accounting.
+From Shm Require Import Gen.Consts Model.Accounting Model.AccountingConc.
 Import ListNotations.
 Open Scope Z_scope.
 
 (* HFlush / HClose: the op followed by the run of the peer's event loop that the wake-up triggers when
    an element was queued *)
-Inductive hop := HL (l : label) | HFlush (e : bool) (sid : nat) (sizes : list Z) (wpos : nat) | HClose (e : bool) (sid : nat).
+Inductive hop := HL (l : label) | HFlush (e : bool) (sid : nat) (sizes : list Z) (wpos : nat) | HClose (e : bool) (sid : nat)
+  | HSync.   (* the quiescent point after a concurrent phase: nothing happens, the snapshot is compared *)
 
-Record astep := { a_op : hop; a_inuse : list Z; a_qs : Z; a_qc : Z }.
+(* a_cmp = false: the op ran inside a concurrent phase; its enabledness is checked, its snapshot is not *)
+Record astep := { a_op : hop; a_cmp : bool; a_inuse : list Z; a_qs : Z; a_qc : Z }.
 Record acase := { a_fx : bool; a_caps : list nat; a_qcap : Z; a_steps : list astep }.
 
 Definition with_wake (e : bool) (s s1 : st) : st :=
@@ -21,6 +23,7 @@ Definition run_hop (s : st) (o : hop) : option st :=
   | HL l => step s l
   | HFlush e sid sizes wpos => Some (with_wake e s (do_flush e sid sizes wpos s))
   | HClose e sid => Some (with_wake e s (do_close e sid s))
+  | HSync => Some s
   end.
 
 Fixpoint class_inuse (base : Z) (caps : list nat) (fr : list Z) : list Z :=
@@ -47,14 +50,65 @@ Fixpoint first_diff (caps : list nat) (s : st) (l : list astep) (n : nat) : opti
     match run_hop s (a_op a) with
     | None => Some (n, 9)
     | Some s' =>
-      if negb (list_eqb (class_inuse 0 caps (free s')) (a_inuse a)) then Some (n, 1)
+      if negb (a_cmp a) then first_diff caps s' r (S n)
+      else if negb (list_eqb (class_inuse 0 caps (free s')) (a_inuse a)) then Some (n, 1)
       else if negb ((Z.of_nat (length (q_srv s')) =? a_qs a) && (Z.of_nat (length (q_cli s')) =? a_qc a)) then Some (n, 2)
       else first_diff caps s' r (S n)
     end
   end.
 
+(* ---- the same history on the fine-grained model (Model/AccountingConc.v): every op of the harness is the
+   sequence of critical sections the code runs for it when nothing interleaves; stream objects are
+   resolved through the session table, as the harness (which always uses the current object) does ---- *)
+Definition crun_opt (s : cst) (l : list clabel) : cst := crun s l.
+Definition drain (e : bool) (s : cst) : cst :=
+  crun s (flat_map (fun _ => [PollOne e; LoopAdd e; LoopCheck e]) (cqueue_to e s)).
+Definition cwith_wake (e : bool) (s s1 : cst) : cst :=
+  if (length (cqueue_to (negb e) s) <? length (cqueue_to (negb e) s1))%nat then drain (negb e) s1 else s1.
+Definition on_obj (e : bool) (sid : nat) (s : cst) (f : nat -> option cst) : option cst :=
+  match tbl s (key e sid) with Some o => f o | None => Some s end.
+Definition opt_or (s : cst) (r : option cst) : option cst := match r with Some x => Some x | None => Some s end.
+
+Definition crun_hop (s : cst) (o : hop) : option cst :=
+  match o with
+  | HL (Open sid) => cstep s (COpen sid)
+  | HL (Write e sid new heap) => match tbl s (key e sid) with Some ob => cstep s (CWrite ob new heap) | None => None end
+  | HL (Flush e sid sizes wpos) => on_obj e sid s (fun ob => opt_or s (cstep s (CFlush ob sizes wpos)))
+  | HFlush e sid sizes wpos =>
+      on_obj e sid s (fun ob => Some (cwith_wake e s (cstep' s (CFlush ob sizes wpos))))
+  | HL (Poll e) => Some (drain e s)
+  | HL (Read e sid kind k) => on_obj e sid s (fun ob => Some (crun s [MoveTo ob; ReadK ob kind k]))
+  | HL (Release e sid) => on_obj e sid s (fun ob => Some (cstep' s (CRelease ob)))
+  | HL (Reuse e sid) => on_obj e sid s (fun ob => Some (cstep' s (CReuse ob)))
+  | HL (Close e sid) => on_obj e sid s (fun ob => Some (crun s (repeat (CloseStep ob) 6)))
+  | HClose e sid => on_obj e sid s (fun ob => Some (cwith_wake e s (crun s (repeat (CloseStep ob) 6))))
+  | HL (ExtHold new) => cstep s (CExtHold new)
+  | HL ExtReturn => cstep s CExtReturn
+  | HL (Inject t sid chain) => cstep s (CInject t sid chain)
+  | HSync => Some s
+  end.
+
+(* codes 11 / 12 / 19: as 1 / 2 / 9 but for the fine-grained model *)
+Fixpoint cfirst_diff (caps : list nat) (s : cst) (l : list astep) (n : nat) : option (nat * Z) :=
+  match l with
+  | [] => None
+  | a :: r =>
+    match crun_hop s (a_op a) with
+    | None => Some (n, 19)
+    | Some s' =>
+      if negb (a_cmp a) then cfirst_diff caps s' r (S n)
+      else if negb (list_eqb (class_inuse 0 caps (cfree s')) (a_inuse a)) then Some (n, 11)
+      else if negb ((Z.of_nat (length (cq_srv s')) =? a_qs a) && (Z.of_nat (length (cq_cli s')) =? a_qc a)) then Some (n, 12)
+      else cfirst_diff caps s' r (S n)
+    end
+  end.
+
 Definition check_case (c : acase) : option (nat * Z) :=
-  first_diff (a_caps c) (init (a_fx c) (fold_right Nat.add O (a_caps c)) (a_qcap c)) (a_steps c) 0.
+  let n := fold_right Nat.add O (a_caps c) in
+  match first_diff (a_caps c) (init (a_fx c) n (a_qcap c)) (a_steps c) 0 with
+  | Some d => Some d
+  | None => cfirst_diff (a_caps c) (cinit (a_fx c) n (a_qcap c)) (a_steps c) 0
+  end.
 
 Fixpoint mismatches_from (n : nat) (cs : list acase) : list (nat * nat * Z) :=
   match cs with
